@@ -296,7 +296,7 @@ func init() {
 	eng.Register(&eng.Scenario{
 		Name: "list-2-2-1", Props: []string{"C12"}, MustFinish: true, ObsNames: obs,
 		Doc:   "LinkedList: threads with 2,2,1 operations from {Push,PushFront,Pop,Peek,PeekTail,IsEmpty,Reset}, one initial element; porcupine against a sequential deque",
-		Quick: eng.Bounds{PB: 1}, Thorough: eng.Bounds{PB: 2},
+		Quick: eng.Bounds{PB: 1, Cap: 8000000}, Thorough: eng.Bounds{PB: 2},
 		Body: listBody([]int{2, 2, 1}, 1), Post: linPost(dequeModel, "C12.list-linearizable"),
 	})
 	eng.Register(&eng.Scenario{
@@ -308,7 +308,7 @@ func init() {
 	eng.Register(&eng.Scenario{
 		Name: "list-2-2", Props: []string{"C12"}, MustFinish: true, ObsNames: obs,
 		Doc:   "LinkedList: 2 threads x 2 operations, empty initial list, deeper preemption bound",
-		Quick: eng.Bounds{PB: 3}, Thorough: eng.Bounds{PB: 4},
+		Quick: eng.Bounds{PB: 3, Cap: 12000000}, Thorough: eng.Bounds{PB: 4},
 		Body: listBody([]int{2, 2}, 0), Post: linPost(dequeModel, "C12.list-linearizable"),
 	})
 }
